@@ -242,6 +242,8 @@ def run(ctx):
                     memo["m"] = "prod-matrix:overlapping-wires"
             if memo["m"]:
                 return memo["m"]
+            if spec["batch"] == 1 and mech.startswith("raises:default.mixed:") and mech.split(":")[2] in ("KeyError", "ValueError", "IndexError"):
+                return "batch1:default.mixed"  # a broadcast batch of size 1 is not expanded by the mixed-state kernels (index bookkeeping fails; same as C28/C33)
             if "batch1-squeezed" in mech or (spec["batch"] == 1 and mech.startswith("null-shape")):
                 return "batch1-squeezed:expval"  # default.qubit / default.mixed drop a size-1 broadcast dimension (reported by C26)
             kinds = {m["m"] for m in spec["meas"]}
